@@ -373,6 +373,7 @@ def r7(ctx):
         for r in fails:
             hits, _e, _n = c.search(('after', claims[0]), goal=lambda ev, r=r: ev.d is r.d,
                                     stop=lambda ev: (ev.kind == 'STORE' and last_field(ev.lhs) == ('qb_hdb_handle', 'ref_count')) or
+                                    (ev.kind == 'CALL' and ev.callee == 'memset' and cval(unwrap(ev.args[1])) == 0) or
                                     (ev.kind == 'CALL' and (refcount_op(ev.e, 'qb_hdb_handle', 'ref_count') or ('', ''))[0] == 'dec'))
             ok = ok and not hits
         ctx.check('R7', 'create:failed-create-gives-claim-back', ok and bool(fails), fails[0] if fails else c,
@@ -413,6 +414,11 @@ def r8(ctx):
             a0 = unwrap(ev.args[0])
             if a0.get('ty', '').startswith('struct qb_hdb_handle'):
                 resets.append(ev)
+    # ... create itself does not wipe it either (the give-back of a failed create is about the count, not the whole slot)
+    entv = estr(unwrap(sts[0].lhs)['b']) if unwrap(sts[0].lhs).get('k') == 'mem' else None
+    for ev in c.calls('memset'):
+        if entv is not None and estr(unwrap(ev.args[0])) == entv and cval(unwrap(ev.args[1])) == 0:
+            resets.append(ev)
     ctx.check('R8', 'generation-never-reset', not resets or not from_prev, resets[0] if resets else c,
               'no other function overwrites a slot\'s check value',
               'the slot\'s check value is reset when the object is released: the generation restarts and handle values repeat')
